@@ -57,7 +57,7 @@ var c10Extra []c10Family
 type c10Hd struct {
 	ID   int  `json:"id"`
 	Mask *int `json:"mask,omitempty"` // TimingChecker: bit t set = Needed(t); nil = no checker
-	SM   int  `json:"sm,omitempty"`   // what the handler does with a stream payload: 0 read fully, 1 read one chunk then close, 2 close at once
+	SM   int  `json:"sm,omitempty"`   // what the handler does with a stream payload: 0 read fully, 1 read one chunk then close, 2 close at once (0, 1 on a goroutine of its own), 3 read fully inside the callback, before returning
 }
 
 type c10Opt struct {
@@ -102,7 +102,7 @@ type c10Compose struct {
 	// implementation side
 	Family   string    `json:"family"`   // par | tools
 	Mode     string    `json:"mode"`     // pregel | dag
-	Paradigm string    `json:"paradigm"` // invoke | stream
+	Paradigm string    `json:"paradigm"` // invoke | stream | transform (par only: Transform over a channel-backed input stream)
 	Nodes    []c10Node `json:"nodes"`
 	Early    string    `json:"early,omitempty"` // "" | unknown | dagsteps
 }
@@ -190,6 +190,22 @@ func (h *c10Handler) OnError(ctx context.Context, info *callbacks.RunInfo, err e
 func c10Stream[T any](h *c10Handler, t int, info *callbacks.RunInfo, sr *schema.StreamReader[T]) {
 	h.rec.add(c10Event{H: h.hd.ID, T: t, Info: c10Info(info)})
 	switch h.hd.SM {
+	case 3:
+		// synchronously, before the callback returns: the copy must be complete on its own
+		var sb strings.Builder
+		for {
+			v, err := sr.Recv()
+			if err != nil {
+				if err == io.EOF {
+					h.rec.addStream(c10Info(info), t, sb.String())
+				} else {
+					h.rec.addStream(c10Info(info), t, "!err:"+err.Error())
+				}
+				break
+			}
+			sb.WriteString(fmt.Sprint(v))
+		}
+		sr.Close()
 	case 2:
 		sr.Close()
 	case 1:
@@ -753,13 +769,26 @@ func c10Exec(c *c10Compose, withHandlers bool) (out string, class string, rec *c
 				class = "build:" + err.Error()
 				return
 			}
-			if c.Paradigm == "stream" {
+			switch c.Paradigm {
+			case "stream":
 				var sr *schema.StreamReader[string]
 				sr, runErr = r.Stream(ctx, "x", opts...)
 				if runErr == nil {
 					out, runErr = c10ReadAll(sr)
 				}
-			} else {
+			case "transform":
+				// a channel-backed input stream: its copies pull from one shared parent, so a copy
+				// that is not independent takes chunks away from the others
+				in, sw := schema.Pipe[string](2)
+				sw.Send("x", nil)
+				sw.Send("", nil)
+				sw.Close()
+				var sr *schema.StreamReader[string]
+				sr, runErr = r.Transform(ctx, in, opts...)
+				if runErr == nil {
+					out, runErr = c10ReadAll(sr)
+				}
+			default:
 				out, runErr = r.Invoke(ctx, "x", opts...)
 			}
 		})
@@ -1132,7 +1161,8 @@ func c10RunApi(c *c10Api) *c10ApiObs {
 						continue
 					}
 					a := arrays[s[0]]
-					ctxs[i] = icb.InitCallbacks(context.Background(), info, a[s[1]:s[1]+s[2]:s[1]+s[3]]...)
+					// on top of the parent unit's context if there is one (work detached from it), else a fresh one
+					ctxs[i] = icb.InitCallbacks(parent, info, a[s[1]:s[1]+s[2]:s[1]+s[3]]...)
 				case "append":
 					ctxs[i] = icb.AppendHandlers(parent, info, c10MkAll(d.Desig, rec)...)
 				case "reuse":
@@ -1436,6 +1466,25 @@ func c10GenCompose(r *vh.Rand) *c10Compose {
 		sh[i] = c.Opts[j]
 	}
 	c.Opts = sh
+	// Transform over a channel-backed input stream, with handlers that read their copy of a
+	// stream payload to the end inside the callback
+	if c.Family == "par" && c.Paradigm == "stream" && r.Chance(45) {
+		c.Paradigm = "transform"
+		syncRead := func(hs []c10Hd) {
+			for i := range hs {
+				if r.Chance(40) {
+					hs[i].SM = 3
+				}
+			}
+		}
+		syncRead(c.Globals)
+		if c.UserInit != nil {
+			syncRead(c.UserInit.Hs)
+		}
+		for i := range c.Opts {
+			syncRead(c.Opts[i].Hs)
+		}
+	}
 	c.Units, _ = c10ComputeUnits(c)
 	return c
 }
@@ -1468,6 +1517,15 @@ func c10GenApi(r *vh.Rand) *c10Api {
 			n := len(c.Arrays[a])
 			off := r.Intn(n)
 			ln := r.Intn(n - off + 1)
+			if i > 0 && r.Chance(50) {
+				// InitCallbacks on the context of an earlier unit: whatever that context carries is
+				// overwritten; often with no handler at all
+				p := r.Intn(i)
+				d.Parent = &p
+				if r.Chance(35) {
+					ln = 0
+				}
+			}
 			cp := ln + r.Intn(n-off-ln+1)
 			d.Kind, d.Slice = "init", []int{a, off, ln, cp}
 		case r.Chance(25):
@@ -1550,7 +1608,7 @@ func c10GenCopies(r *vh.Rand) *c10Copies {
 // ---------------------------------------------------------------- entry point
 
 func runC10(ctx *vh.Ctx) error {
-	ctx.Res.Rule = "compose: random graphs START→2-4 parallel units (lambdas i/s/c/t, self-firing lambda, nested graph with 1-2 inner nodes, ToolsNode with 2 parallel tool calls) meeting at a barrier, handlers global / caller context / 0-5 undesignated options / designated to nodes and node paths, invoke|stream, pregel|dag, failing nodes and early option errors; api: random unit trees over internal/callbacks with caller slices of arbitrary offset/len/cap and a random interleaving; copies: StreamReader.Copy vs the model. non-trivial = compose with ≥2 barrier parties and ≥1 handler source, api with ≥3 units and ≥1 delivered callback, copies with ≥1 op; distinct by shape+handler-supply signature (compose) / full case (api, copies)"
+	ctx.Res.Rule = "compose: random graphs START→2-4 parallel units (lambdas i/s/c/t, self-firing lambda, nested graph with 1-2 inner nodes, ToolsNode with 2 parallel tool calls) meeting at a barrier, handlers global / caller context / 0-5 undesignated options / designated to nodes and node paths, invoke|stream|transform (a channel-backed input stream, handlers reading their stream copies to the end inside the callback), pregel|dag, failing nodes and early option errors; api: random unit trees over internal/callbacks with caller slices of arbitrary offset/len/cap and a random interleaving; copies: StreamReader.Copy vs the model. non-trivial = compose with ≥2 barrier parties and ≥1 handler source, api with ≥3 units and ≥1 delivered callback, copies with ≥1 op; distinct by shape+handler-supply signature (compose) / full case (api, copies)"
 	if ctx.Replay != nil {
 		var probe struct {
 			Kind string `json:"kind"`
@@ -1593,6 +1651,18 @@ func runC10(ctx *vh.Ctx) error {
 			if err := c10OneCompose(ctx, c10Witness(m, p)); err != nil {
 				return err
 			}
+		}
+	}
+	// Transform over a channel-backed stream with handlers (graph level, and designated to a nested
+	// graph) that read their copy of every stream payload to the end inside the callback
+	for _, m := range []string{"pregel", "dag"} {
+		w := &c10Compose{Kind: "compose", Family: "par", Mode: m, Paradigm: "transform", Globals: []c10Hd{},
+			Opts: []c10Opt{{Hs: []c10Hd{{ID: 1, SM: 3}}}, {Hs: []c10Hd{{ID: 2, SM: 3}}, Paths: [][]string{{"A"}}},
+				{Hs: []c10Hd{{ID: 3, SM: 3}}, Paths: [][]string{{"A", "X"}}}},
+			Nodes: []c10Node{{Key: "A", LK: "graph", Inner: []c10Node{{Key: "X", LK: "t"}}}, {Key: "B", LK: "c"}}}
+		w.Units, _ = c10ComputeUnits(w)
+		if err := c10OneCompose(ctx, w); err != nil {
+			return err
 		}
 	}
 	for _, f := range c10Extra {
